@@ -2,7 +2,7 @@
 EXTENDS OrdaSnap, Json, TLCExt
 SetToSeq(S) == LET RECURSIVE F(_) F(T) == IF T = {} THEN <<>> ELSE LET m == CHOOSE x \in T : \A y \in T : x <= y IN <<m>> \o F(T \ {m}) IN F(S)
 Obs == [end |-> end, snaps |-> SetToSeq(snaps), udoc |-> udoc, pubs |-> pubs, cps |-> cps, pend |-> pend,
-        phases |-> [i \in 1..Len(ups) |-> ups[i].phase]]
+        phases |-> [i \in 1..Len(ups) |-> ups[i].phase], initsnap |-> InitSnapshot]
 EdgeDump == PrintT("EDGE " \o ToJson([hist |-> hist', obs |-> Obs']))
 StepDump == PrintT("STEP " \o ToJson([t |-> TLCGet("stats").traces, l |-> TLCGet("level"), act |-> act,
                                       pact |-> IF Len(hist) >= 2 THEN hist[Len(hist) - 1] ELSE [name |-> "init"], obs |-> Obs]))
